@@ -76,18 +76,20 @@ theorem g6_step (s s' : St) (e : Ev) (hG : G6 s) (hs : step s e = some s') : G6 
         · rename_i op hp
           simp at hs; subst hs
           obtain ⟨c, hcfg, hall⟩ := hG.c.call id op (pendingOp_mem s.calls id op hp)
+          have hpc : (preOp s op).cfg = s.cfg := (preOp_fields s op).2.2.2.2.1
+          have hpr : (preOp s op).refs = s.refs := (preOp_fields s op).2.1
           refine ⟨?_, ?_, ?_, ?_⟩
           · intro c' hc' hrc
-            simp only [cfg_execOp] at hc'
+            simp only [cfg_execOp, hpc] at hc'
             rw [hcfg] at hc'; cases hc'
             rw [hrc] at hall
-            show (execOp s op).1.refs = []
-            rw [refs_execOp s op hall]; exact hG.plain c hcfg hrc
-          · intro h; simp only [cfg_execOp, hcfg] at h; cases h
+            show (execOp (preOp s op) op).1.refs = []
+            rw [refs_execOp (preOp s op) op hall, hpr]; exact hG.plain c hcfg hrc
+          · intro h; simp only [cfg_execOp, hpc, hcfg] at h; cases h
           · show ((s.calls.map _).map Call.id).Nodup
             rw [map_done_ids]; exact hG.ids
           · intro c1 hc1 hrc c' hc'
-            simp only [cfg_execOp] at hc1
+            simp only [cfg_execOp, hpc] at hc1
             rw [hc1] at hc'; cases hc'; exact hrc
         · simp at hs
       | ctor k d =>
